@@ -16,9 +16,17 @@ import (
 // of a double close, a dup onto a stale number). In mode "alone" nothing is opened and every close() of A's thread must
 // succeed: EBADF is a close of a number A does not own, which is the same defect seen without the other party (it hits
 // whoever opened a descriptor in between). Together: every placement of one foreign open relative to A's system calls.
-func c17holders(x *mc.X) {
+func c17holders(x *mc.X, tier string) {
 	ops := c06xOps()
-	oi := x.Choose(len(ops), "operation-A")
+	idx := make([]int, 0, len(ops))
+	for i, o := range ops {
+		// quick: the launches that are given up half-way, the operations that receive or create descriptors of their own,
+		// and the shortage operation; thorough: every operation
+		if tier == "thorough" || o.shortage || strings.Contains(o.name, "refuses") || strings.Contains(o.name, "exec-fails") || strings.Contains(o.name, "container-open") || strings.Contains(o.name, "user-namespace") {
+			idx = append(idx, i)
+		}
+	}
+	oi := idx[x.Choose(len(idx), "operation-A")]
 	mode := x.Pick("other-party", "held", "alone")
 	x.Note("operation-A", ops[oi].name)
 	if x.Dry() {
